@@ -1,4 +1,5 @@
 import RsslVerif.Model.CondChain
+import RsslVerif.Model.CondFile
 import RsslVerif.Driver.Util
 /-!
 Line-protocol front end of the C11 model.
@@ -165,6 +166,133 @@ def handleCore (op : String) (args : List String) : String :=
     | none => "bad-request"
   | _, _ => "unsupported-op"
 
+/-! ## `C11.raw`: files as the token streams the real lexer produced (fields after `@toks`)
+
+`C11.raw <api defs> <main text> <name=text>… @toks <D tokens>… <F name tokens>…` — the text fields are what
+the implementation and the oracle see; the model (which does not contain a lexer, C10) reads the derived
+token fields: `w` blank/comment/spliced line end, `E` line end, `( ) ,`, `##`, `i<name>` identifier,
+`n<spelling>` `LiteralInt`/`LiteralIntUnsigned32`, `p<spelling>` any other token (`%xx`-escaped;
+`<~`/`>~` = followed by a token), `X` = the lexer fails here. -/
+
+def unpct (s : String) : String :=
+  let rec go : List Char → List Char
+    | '%' :: a :: b :: r =>
+      match hexDigit? a, hexDigit? b with
+      | some x, some y => Char.ofNat (x * 16 + y) :: go r
+      | _, _ => '%' :: go (a :: b :: r)
+    | c :: r => c :: go r
+    | [] => []
+  String.ofList (go s.toList)
+
+open RsslVerif.Model.Macro in
+def rawTok (w : String) : Option RsslVerif.Model.CondFile.SItem :=
+  let loc (t : Tok) : Option RsslVerif.Model.CondFile.SItem := some (.tok ⟨t, true⟩)
+  if w == "X" then some .lexError
+  else if w == "w" then loc .ws
+  else if w == "E" then loc .endline
+  else if w == "(" then loc .lparen
+  else if w == ")" then loc .rparen
+  else if w == "," then loc .comma
+  else if w == "##" then loc .hashhash
+  else match w.toList with
+    | 'i' :: r => loc (.id (String.ofList r))
+    | 'n' :: r => loc (.int (String.ofList r))
+    | 'p' :: r => loc (.punct (unpct (String.ofList r)))
+    | _ => none
+
+def rawToks (s : String) : Option (List RsslVerif.Model.CondFile.SItem) :=
+  sequenceOpt (((s.splitOn " ").filter (· ≠ "")).map rawTok)
+
+open RsslVerif.Model.Macro in
+def showRawTok : Tok → String
+  | .id s | .int s => s
+  | .punct s => if s == "<~" then "<" else if s == ">~" then ">" else s
+  | .lparen => "("
+  | .rparen => ")"
+  | .comma => ","
+  | .ws | .endline => ""
+  | .hashhash => "##"
+  | .concat => "?Concat"
+  | .arg i => "?MacroArg(" ++ toString i ++ ")"
+
+open RsslVerif.Model.Macro in
+def rawLines (out : List PTok) : List (List String) :=
+  let rec go : List PTok → List String → List (List String)
+    | [], cur => if cur.isEmpty then [] else [cur.reverse]
+    | t :: r, cur =>
+      if t.tok == .endline then (if cur.isEmpty then go r [] else cur.reverse :: go r [])
+      else if t.tok.isWhitespace then go r cur
+      else go r (showRawTok t.tok :: cur)
+  go out []
+
+open RsslVerif.Model.Macro in
+def showMacroErr : RsslVerif.Model.Macro.Err → String
+  | .invalidDefine => "err InvalidDefine"
+  | .invalidUndef => "err InvalidUndef"
+  | .macroRequiresArguments _ => "err MacroRequiresArguments"
+  | .macroArgumentsNeverEnd => "err MacroArgumentsNeverEnd"
+  | .macroExpectsDifferentNumberOfArguments => "err MacroExpectsDifferentNumberOfArguments"
+  | .concatMissingLeftToken => "err ConcatMissingLeftToken"
+  | .concatMissingRightToken => "err ConcatMissingRightToken"
+  | .concatFailed => "err ConcatFailed"
+  | .failedToFindFile _ => "err FailedToFindFile"
+  | .panic site => "unsupported: model reports a panic at " ++ site
+  | .hang => "unsupported: model reports a hang"
+  | .guard w => "unsupported: termination guard " ++ w
+  | .unsupported w => "unsupported: " ++ w
+  | .includeFuel => "unsupported: include fuel"
+
+def showRawErr : RsslVerif.Model.CondFile.Err → String
+  | .macro e => showMacroErr e
+  | .lexer => "err LexerError"
+  | .unknownCommand => "err UnknownCommand"
+  | .invalidInclude => "err InvalidInclude"
+  | .failedToFindFile => "err FailedToFindFile"
+  | .includeDepthExceeded => "err IncludeDepthExceeded"
+  | .failedToParseIfCondition => "err FailedToParseIfCondition"
+  | .invalidIfdef => "err InvalidIfdef"
+  | .invalidIfndef => "err InvalidIfndef"
+  | .invalidElse => "err InvalidElse"
+  | .invalidEndIf => "err InvalidEndIf"
+  | .chain .ElseNotMatched => "err ElseNotMatched"
+  | .chain .EndIfNotMatched => "err EndIfNotMatched"
+  | .chain .ConditionChainNotFinished => "err ConditionChainNotFinished"
+  | .unknownPragma => "err UnknownPragma"
+  | .includeFuel => "unsupported: include fuel"
+
+def handleRaw (args : List String) : String :=
+  match args.dropWhile (· ≠ "@toks") with
+  | [] => "unsupported: no token fields"
+  | _ :: tf =>
+    -- `##` inside a `#define` line becomes `Concat` (the paste operator belongs to C12); elsewhere it is an ordinary token
+    let pasteInDefine (f : String) : Bool :=
+      (f.splitOn " E").any fun line =>
+        let ws := (line.splitOn " ").filter (fun w => w ≠ "" ∧ w ≠ "w")
+        ws.contains "##" && (match ws.dropWhile (fun w => w ≠ "p#") with
+          | _ :: "idefine" :: _ => true
+          | _ => false)
+    if tf.any (fun f => (f.startsWith "D " && (f.splitOn " ").contains "##") || pasteInDefine f) then
+      "unsupported: ## in a macro body belongs to C12" else
+    let api := tf.filter (·.startsWith "D ")
+    let files := tf.filter (·.startsWith "F ")
+    let apiDefs : Option (List RsslVerif.Model.CondFile.ApiDef) := sequenceOpt (api.map fun f =>
+      match rawToks (f.drop 2).toString with
+      | none => none
+      | some items =>
+        if items.contains .lexError then some none
+        else some (some (items.filterMap fun i => match i with | .tok t => some t | .lexError => none)))
+    let fileTabs : Option (List (String × List RsslVerif.Model.CondFile.SItem)) := sequenceOpt (files.map fun f =>
+      match (f.drop 2).toString.splitOn " " with
+      | name :: toks => (rawToks (" ".intercalate toks)).map (fun t => (name, t))
+      | [] => none)
+    match apiDefs, fileTabs with
+    | some api, some tabs =>
+      let h : RsslVerif.Model.CondFile.Handler := fun n => (tabs.find? (·.1 == n)).map (·.2)
+      match RsslVerif.Model.CondFile.preprocessAll h api "main.rssl" with
+      | .ok out => "ok " ++ "|".intercalate ((rawLines out).map (fun l => " ".intercalate l))
+      | .error e => showRawErr e
+    | _, _ => "bad-request"
+
 /-- the optional last field is the whitespace/comment style the harness renders the lines with; the
     model works on tokens and ignores it -/
 def handle (op : String) (args : List String) : String :=
@@ -172,6 +300,7 @@ def handle (op : String) (args : List String) : String :=
   | "C11.seq", [a, _] => handleCore op [a]
   | "C11.run", [a, _] => handleCore op [a]
   | "C11.cond", [a, b, _] => handleCore op [a, b]
+  | "C11.raw", _ => handleRaw args
   | _, _ => handleCore op args
 
 end RsslVerif.Driver.C11
